@@ -125,6 +125,11 @@ def tally_variation(ctx, spec, prefix):
     if spec.get("phased_input"):
         t("phased_vcf_as_phase_input")
     t(f"nchrom={spec['nchrom']}")
+    if spec.get("large"):
+        t("large_many_variants_long_inserts")
+        for thr in (64, 128, 256):
+            if spec["nvars"] > thr:
+                t(f"nvars>{thr}")
     nfam = len(base_roles(spec))
     if spec["trio"]:
         t("k_not_divisible_by_family" if spec["k"] % nfam else "k_divisible_by_family")
@@ -152,6 +157,19 @@ def role_names(spec):
 
 
 QUARTET = ["father", "mother", "child", "child2"]
+
+
+def make_large_spec(rng, nvars, **kw):
+    """many variants per chromosome (beyond 64 / 128 / 256 variant indices) and mate pairs with long inserts, so that reads
+    span dozens to hundreds of variant indices while covering few variants"""
+    kw.setdefault("depth_reads", nvars * 10)
+    kw.setdefault("paired_fraction", 0.5)
+    kw.setdefault("nchrom", 1)
+    kw.setdefault("min_gap", 25)
+    spec = make_spec(rng, nvars=nvars, **kw)
+    spec["insert_range"] = rng.choice([[1500, 6000], [4000, 12000], [200, 20000]])
+    spec["large"] = True
+    return spec
 
 
 def make_stacked_spec(rng, k, counts, family="trio", many=0, nstack=None):
@@ -390,7 +408,8 @@ def build_inputs(spec, wd):
                 reads += stacked_reads(rng, sc, s, c, stacked["counts"][si], first, nst, f"{s}_{c}_st")
                 continue
             rs = synth.simulate_reads(rng, sc, s, c, spec["depth_reads"], len_range=tuple(spec["len_range"]),
-                                      paired_fraction=spec["paired_fraction"])
+                                      paired_fraction=spec["paired_fraction"],
+                                      insert_range=tuple(spec.get("insert_range") or (30, 120)))
             if spec["low_cov_gaps"]:
                 # remove every read overlapping one or two random windows: splits the read graph
                 L = len(sc.ref[c])
